@@ -158,7 +158,7 @@ namespace sim
 
 		int const port = host_end == std::string::npos || host_end <= 7 ? 80
 			: atoi(req.req.substr(host_end + 1, path_start).c_str());
-		assert(port >= 0 && port < 0xffff);
+		assert(port >= 0 && port <= 0xffff);
 
 		bool found_host = false;
 		for (auto const& h : req.headers)
